@@ -1,11 +1,13 @@
 import Protocol
 import DriverJournal
+import DriverHash
 open Lean Gtfs Gtfs.Proto
 
 def dispatch (j : Json) : R Json := do
   let kind ← j.getObjValAs? String "kind"
   match kind with
   | "journal" => DJournal.handle j
+  | "hash" => DHash.handle j
   | k => throw s!"unknown kind {k}"
 
 partial def loop (hin hout : IO.FS.Stream) : IO Unit := do
